@@ -139,6 +139,16 @@ def gen(ctx):
             for fn in ("up", "lo", "cap"):
                 if quick and r.random() > 0.25: continue
                 cases.append(["cf %s %s %d %s" % (fn, loc, r.choice([0, 1, 16]), hx(CR.enc([0x61, c, 0x62] if r.random() < 0.5 else [c])))])
+    # every context-sensitive code point next to every mark / dot / sigma, in every locale (the context rules look one
+    # code point ahead or behind)
+    ctx_chars = ilike + [0x3A3, 0x345, 0x307, 0x6A, 0x1E2D, 0x3C3]
+    for x in ctx_chars:
+        for y in marks + [0x49, 0x69, 0x3A3, 0x391, 0x61]:
+            for loc in ("-", "tr", "az", "lt"):
+                for fn in ("up", "lo", "cap"):
+                    if quick and r.random() > 0.34: continue
+                    for cps in ([x, y], [0x391, x, y, 0x61], [y, x]):
+                        cases.append(["cf %s %s %d %s" % (fn, loc, r.choice([0, 4]), hx(CR.enc(cps)))])
     # ordinary Greek words: final sigma in word-final position
     for w in ("ΟΔΥΣΣΕΥΣ", "ΣΟΦΟΣ ΑΝΗΡ", "ΑΣ. ΒΣ, ΓΣ", "ΦΙΛΟΣ", "Σ", "ΑΣΑ ΣΑΣ", "ΛΌΓΟΣ"):
         cases.append(["cf lo - 4 " + hx(w.encode())])
